@@ -143,6 +143,33 @@ func main() {
 		}
 		return f
 	}
+	// pkgFiles: the non-test .go files of a package directory as the build sees them — the files on disk plus
+	// the files an overlay ADDS to the directory, minus the ones it deletes (replacement "")
+	pkgFiles := func(relDir string) []string {
+		dir := filepath.Join(*repo, relDir)
+		set := map[string]bool{}
+		on, _ := filepath.Glob(filepath.Join(dir, "*.go"))
+		for _, fp := range on {
+			set[fp] = true
+		}
+		for k, v := range ov {
+			if filepath.Dir(k) == dir && strings.HasSuffix(k, ".go") {
+				if v == "" {
+					delete(set, k)
+				} else {
+					set[k] = true
+				}
+			}
+		}
+		var out []string
+		for fp := range set {
+			if !strings.HasSuffix(fp, "_test.go") {
+				out = append(out, fp)
+			}
+		}
+		sort.Strings(out)
+		return out
+	}
 	cs := parse("node/app/clusterservices.go")
 	cl := parse("node/app/cluster.go")
 
@@ -207,7 +234,7 @@ func main() {
 	// they are structured) must be unable to touch a directory object: no receiver, and no mention
 	// of the type ClusterServices, of a clusterServices field or of the GetCluster accessor.
 	plain := map[string]*ast.FuncDecl{}
-	files, _ := filepath.Glob(filepath.Join(*repo, "node/app", "*.go"))
+	files := pkgFiles("node/app")
 	for _, fp := range files {
 		if strings.HasSuffix(fp, "_test.go") {
 			continue
@@ -331,7 +358,7 @@ func main() {
 	// ---- etcd provider: order of "publish" and "spawn a goroutine that can publish" in the start-up
 	// functions, by flow (calls on the receiver are expanded in place, whatever the helpers are called)
 	prov := map[string]*ast.FuncDecl{}
-	pfiles, _ := filepath.Glob(filepath.Join(*repo, "node/cluster/clusterproviders/etcd", "*.go"))
+	pfiles := pkgFiles("node/cluster/clusterproviders/etcd")
 	for _, fp := range pfiles {
 		if strings.HasSuffix(fp, "_test.go") {
 			continue
